@@ -63,6 +63,9 @@ def back_check(rec, ell, xyz, one, site_prefix, co):
     if st != 'ok':
         rec.fail('xyz2llh raised on a point off the rotation axis', site=site_prefix + ':raise', observed=r, case=one, coords=co)
         return
+    if not (isinstance(r, tuple) and len(r) == 3 and all(isinstance(v, (int, float)) and not isinstance(v, bool) for v in r)):
+        rec.fail('xyz2llh did not return three numbers (latitude, longitude, height)', site=site_prefix + ':result-type', observed=repr(r), case=one, coords=co)
+        return
     lat2, lon2, h2 = r
     rec.state(('llh', ell, float(lat2).hex(), float(lon2).hex(), float(h2).hex()))
     if not (-180.0 <= lon2 <= 180.0) or not (-90.0 <= lat2 <= 90.0):
@@ -204,12 +207,31 @@ def gen_cart(tier, seed):
             for z in zs:
                 for sz in (1, -1):
                     yield {'ell': ell, 'p': p, 'z': sz * z, 'az': azs}
+    # points whose components satisfy EXACT relations (p == |z|, x == y, Pythagorean triples, whole metres): a branch on the
+    # comparison of two components has its boundary there
+    for ell in ('grs80', 'ans', 'sphere'):
+        for v in (4.5e6, 4.6e6, 5.0e6, 2.0e7):
+            for xyz in ((v, 0.0, v), (v, 0.0, -v), (0.0, -v, v), (-v, 0.0, -v), (0.6 * v, 0.8 * v, v), (-0.8 * v, 0.6 * v, -v), (v, v, v), (v, -v, 0.0),
+                        (v, v, math.sqrt(2.0) * v), (0.6 * v, -0.8 * v, 0.0)):
+                yield {'ell': ell, 'xyz': list(xyz), 'p': 0.0, 'z': 0.0, 'az': []}
+        for xyz in ((3000000, 4000000, 5000000), (-3000000, 4000000, -5000000), (4000000, 3000000, 5000000), (5000000, 0, 5000000)):
+            yield {'ell': ell, 'xyz': list(xyz), 'p': 0.0, 'z': 0.0, 'az': []}
 
 
 def ev_cart(case, rec):
     ell = case['ell']
     a, invf = ELL_AF[ell]
     p, z = case['p'], case['z']
+    if 'xyz' in case:
+        x, y, z = case['xyz']
+        la, lo, h = om.xyz2llh_mp(math.hypot(x, y), 0.0, z, a, invf)
+        if not (-1e4 <= float(h) <= 4e7):
+            rec.skip('height outside [-1e4, 4e7] m per the oracle')
+            return
+        rec.nontriv((ell, x, y, z))
+        back_check(rec, ell, (x, y, z), case, 'convert:xyz2llh', {'ell': ell, 'p': math.hypot(x, y), 'z': z, 'h': float(h), 'exact_relation': True})
+        rec.sample({'case': case})
+        return
     # domain: height of the point must lie in [-1e4, 4e7] (classified by the oracle inverse)
     la, lo, h = om.xyz2llh_mp(p, 0.0, z, a, invf)
     if not (-1e4 <= float(h) <= 4e7):
